@@ -966,7 +966,15 @@ class API:
             gapic.schema.api.MethodSettingsError: if the method settings do not
                 meet the requirements of https://google.aip.dev/client-libraries/4235.
         """
-        self.enforce_valid_method_settings(
+        # Selectors may name any method of the API, and request types may live
+        # in any of its packages: validate against the whole API, not against
+        # the sub-package this view is restricted to.
+        whole_api = (
+            dataclasses.replace(self, subpackage_view=())
+            if self.subpackage_view
+            else self
+        )
+        whole_api.enforce_valid_method_settings(
             self.service_yaml_config.publishing.method_settings
         )
 
